@@ -4,6 +4,14 @@ import json, os
 V = os.path.dirname(os.path.dirname(os.path.abspath(__file__)))
 
 CHECKS = {
+ "C11": dict(cat="model_checking", ref="DESIGN.md section 5 C11",
+   text="TLA+ module Pow: PowHash = Curl-P-81(b1t6(digest) ++ b1t6(nonce)) evaluated by TLC itself, Score = 3^z/len compared exactly with BigNat arithmetic. TLC model-checks the lane test on all lane states at a scaled hash length. Every Mine call (run in a child process so that a crash is an observation) on targets at, one ulp above/below 3^k/len, far below 1/len, mid-range, with 1..16 workers, is validated: TLC hashes the returned nonce, counts zeros, checks the logged Score is 3^z/len within one ulp and >= target exactly.",
+   note="Trusted: TLC/SANY/CommunityModules, Go toolchain, BLAKE2b digest as a fact. Targets need at most 5 (thorough 8) zeros so that mining stays fast; data and targets are sampled.",
+   tech="explicit TLA+ spec (Curl-P-81, b1t6, BigNat evaluated by TLC) + scaled TLC model + trace validation of Mine/Score/lane test"),
+ "C12": dict(cat="model_checking", ref="DESIGN.md section 5 C12",
+   text="TLA+ PowMC checks the three-stage lane test exhaustively at a scaled hash length (sound; complete for strictly qualifying lanes; s-1 zeros necessary). At real size TLC judges the real checkStateTrits on 64-lane planes built around every decision boundary (s-2/s-1/s zeros, hashes at targetHash-1/0/+1 at lane 0 and 63, products around 3^39, 3^40 and 2^64-1), the real sufficientTrailingZeros/targetHash and Score (division certificates verified by multiplication), and Mine: the returned nonce's hash is computed by TLC and must satisfy h*lx <= 3^243, and for single-worker runs no logged candidate of an earlier block may satisfy h*(lx+1) <= 3^243.",
+   note="Trusted: TLC/SANY/CommunityModules, Go toolchain, BLAKE2b digest fact, iota.go single-lane Curl for the hashes of earlier nonces (one audited by TLC per event). Mine targets need at most 6 (thorough 8) zeros.",
+   tech="explicit TLA+ spec with BigNat + scaled exhaustive TLC model of the lane test + trace validation with certificates"),
  "C06": dict(cat="model_checking", ref="DESIGN.md section 5 C06",
    text="TLA+ CurlMC: a bit-sliced mini sponge shaped like curl.go (rate reset for all lanes, `in` only clears bits, transform placement in Squeeze, Reset, Clone, rejected calls) is model-checked to refine independent per-lane sponges of module CurlP81 for all histories up to a depth over two instances. Real Curl objects are driven through seeded histories (pooled block keys so equal histories meet at different lane positions, batch sizes 1..64, one-call vs split absorbs of the same histories, split squeezes, diverging clones, resets, rejected calls); the stateful trace specification keeps term -> output and rejects any term observed with two outputs, wrong error answers or touched state, and evaluates the Curl-P-81 sponge itself (729 trits, 81 rounds, in TLC) for audited lanes.",
    note="Trusted: TLC/SANY/CommunityModules, Go toolchain, collision freedom of the SHA-256 output fingerprints. The scaled model (hash length 1, 2-3 lanes, 2 rounds) carries the structural argument; real-size behaviour is bound by sampled histories and audited lanes.",
